@@ -9,17 +9,35 @@ package obitag
 // and every assignment of the known references to nodes of a taxonomy, the taxon written on the
 // query must be an ancestor-or-self of the taxon of every best-matching (known) reference and the
 // reported best identity must be the one of the brute-force scan.
+//
+// Call histories (audit extension): the references are ONE set of objects shared by every query of a
+// run and by every worker; Identify stores the index it builds lazily on the reference itself
+// (obitag_ref_index), and a database written by obirefidx / --save-db arrives with that annotation
+// already present, as map[int]string (in memory) or as the map[string]interface{} / map[string]string a
+// JSON title line decodes to. For every database the harness runs every stream of 1..2 (thorough 3)
+// queries drawn from 4 (the query, an edit of it, one shorter than a 4-mer, one longer than every
+// reference; repetitions included) x {fresh references, references pre-indexed in each representation,
+// every second reference pre-indexed} x {1 worker / one batch, 2 and 3 workers / one query per batch}
+// and demands (a) for every query of the stream the taxon it receives when it is the only query of a
+// run on fresh references (itself held to the ancestor-or-self oracle), (b) that every index left on a
+// reference after the run maps each recorded distance to the LCA of the references within it.
 
 import (
 	"encoding/json"
 	"fmt"
 	"io"
 	"math"
+	"sort"
+	"strconv"
+	"strings"
 	"testing"
 
 	"git.metabarcoding.org/obitools/obitools4/obitools4/pkg/obiiter"
 	"git.metabarcoding.org/obitools/obitools4/obitools4/pkg/obioptions"
+	"git.metabarcoding.org/obitools/obitools4/obitools4/pkg/obikmer"
 	"git.metabarcoding.org/obitools/obitools4/obitools4/pkg/obiseq"
+	"git.metabarcoding.org/obitools/obitools4/obitools4/pkg/obitax"
+	"git.metabarcoding.org/obitools/obitools4/obitools4/pkg/obitools/obirefidx"
 	"git.metabarcoding.org/obitools/obitools4/obitools4/pkg/verifkit"
 	log "github.com/sirupsen/logrus"
 )
@@ -30,6 +48,11 @@ type c15bCase struct {
 	Refs    []string `json:"refs"`
 	Taxids  []int    `json:"taxids"` // 999 = unknown to the taxonomy
 	Workers int      `json:"workers"`
+	// call histories: the stream of queries of one run (Query is unused then), how the references
+	// arrive ("" fresh | int | json | str | partial) and the batch size of the query stream
+	Queries []string `json:"queries,omitempty"`
+	Index   string   `json:"index,omitempty"`
+	Batch   int      `json:"batch,omitempty"`
 }
 
 func c15bRun(t *c15tree, c c15bCase) (taxid int, identity float64, bestid string, err string) {
@@ -69,6 +92,188 @@ func c15bRun(t *c15tree, c c15bCase) (taxid int, identity float64, bestid string
 	}
 	if v, ok := res.GetAttribute("obitag_bestmatch"); ok {
 		bestid = fmt.Sprint(v)
+	}
+	return
+}
+
+// ---------------------------------------------------------------------------------------------
+// shared by the command-level harnesses: distances, the index a reference must carry, its check
+
+var c15bDistMemo = map[string]int{}
+
+func c15bDist(a, b string) int {
+	if a > b {
+		a, b = b, a
+	}
+	k := a + "|" + b
+	if d, ok := c15bDistMemo[k]; ok {
+		return d
+	}
+	l, al := c15lcs(a, b)
+	c15bDistMemo[k] = al - l
+	return al - l
+}
+
+// c15bWantIndex returns, for member s of the database (seqs, taxa; a taxid unknown to the tree marks a
+// reference that is not part of the database), want[d] = LCA of the taxa of all members within
+// distance d of s (s included)
+func c15bWantIndex(t *c15tree, seqs []string, taxa []int, s int) []int {
+	want := make([]int, 64)
+	cur := taxa[s]
+	for d := 0; d < len(want); d++ {
+		for k := range seqs {
+			if _, known := t.par[taxa[k]]; !known {
+				continue
+			}
+			if k != s && c15bDist(seqs[s], seqs[k]) == d {
+				cur = t.lcaTab[cur][taxa[k]]
+			}
+		}
+		want[d] = cur
+	}
+	return want
+}
+
+func c15bIndexString(idx map[int]string) string {
+	keys := make([]int, 0, len(idx))
+	for k := range idx {
+		keys = append(keys, k)
+	}
+	sort.Ints(keys)
+	var sb strings.Builder
+	sb.WriteString("{")
+	for _, k := range keys {
+		fmt.Fprintf(&sb, " %d:%s", k, idx[k])
+	}
+	sb.WriteString(" }")
+	return sb.String()
+}
+
+// c15bCheckIndex compares an index with the LCAs it must record (same reading as evalIndex of the
+// first harness: an entry must be the LCA of the references within its distance, and the entry
+// applying to d - largest recorded distance <= d - must be the LCA within d for every d < lseq)
+func c15bCheckIndex(idx map[int]string, want []int, lseq int) (cls, msg string) {
+	keys := make([]int, 0, len(idx))
+	for k, v := range idx {
+		keys = append(keys, k)
+		at := strings.IndexByte(v, '@')
+		id, err := -1, error(nil)
+		if at > 0 {
+			id, err = strconv.Atoi(v[:at])
+		}
+		if at <= 0 || err != nil || strings.Count(v, "@") != 2 || k < 0 || k >= len(want) {
+			return "malformed-entry", fmt.Sprintf("entry %d:%q", k, v)
+		}
+		if w := want[k]; id != w {
+			return "wrong-lca", fmt.Sprintf("distance %d is recorded with taxid %d, the LCA of the references within %d is %d", k, id, k, w)
+		}
+	}
+	sort.Ints(keys)
+	for d := 0; d < lseq; d++ {
+		k := sort.SearchInts(keys, d+1) - 1
+		if k < 0 {
+			return "missing-distance", fmt.Sprintf("no entry applies to distance %d (LCA %d)", d, want[d])
+		}
+		v := idx[keys[k]]
+		id, _ := strconv.Atoi(v[:strings.IndexByte(v, '@')])
+		if id != want[d] {
+			return "missing-distance", fmt.Sprintf("the entry applying to distance %d gives taxid %d, the LCA of the references within %d is %d", d, id, d, want[d])
+		}
+	}
+	return "", ""
+}
+
+// ---------------------------------------------------------------------------------------------
+// call histories through CLIAssignTaxonomy
+
+type c15bHistOut struct {
+	taxids  []int            // per query of the stream, -1 = not delivered
+	indices []map[int]string // per reference: the index it carries after the run (nil = none)
+	err     string
+}
+
+func c15bRunHist(t *c15tree, c c15bCase) (o c15bHistOut) {
+	defer func() {
+		if e := recover(); e != nil {
+			o.err = fmt.Sprint(e)
+		}
+	}()
+	refs := obiseq.MakeBioSequenceSlice()
+	for i, s := range c.Refs {
+		r := obiseq.NewBioSequence(fmt.Sprintf("ref%d", i), []byte(s), "")
+		r.SetTaxid(c.Taxids[i])
+		refs = append(refs, r)
+	}
+	if c.Index != "" {
+		// what obirefidx does: index every reference the taxonomy knows against the known ones
+		known := obiseq.MakeBioSequenceSlice()
+		var kmers []*obikmer.Table4mer
+		taxa := make(obitax.TaxonSet)
+		for i, r := range refs {
+			if n, ok := t.node[c.Taxids[i]]; ok {
+				taxa[len(known)] = n
+				known = append(known, r)
+				kmers = append(kmers, obikmer.Count4Mer(r, nil, nil))
+			}
+		}
+		for i, r := range known {
+			if c.Index == "partial" && i%2 == 1 {
+				continue
+			}
+			idx := obirefidx.IndexSequence(i, known, &kmers, &taxa, t.taxo)
+			switch c.Index {
+			case "int", "partial":
+				r.SetOBITagRefIndex(idx)
+			case "json": // what a JSON title line decodes to
+				m := map[string]interface{}{}
+				for k, v := range idx {
+					m[strconv.Itoa(k)] = v
+				}
+				r.SetAttribute("obitag_ref_index", m)
+			case "str":
+				m := map[string]string{}
+				for k, v := range idx {
+					m[strconv.Itoa(k)] = v
+				}
+				r.SetAttribute("obitag_ref_index", m)
+			default:
+				panic("c15b: unknown index mode " + c.Index)
+			}
+		}
+	}
+	qs := obiseq.MakeBioSequenceSlice()
+	for i, s := range c.Queries {
+		qs = append(qs, obiseq.NewBioSequence(fmt.Sprintf("q%d", i), []byte(s), ""))
+	}
+	obioptions.SetMaxCPU(c.Workers)
+	obioptions.SetWorkerPerCore(1)
+	batch := c.Batch
+	if batch < 1 {
+		batch = 10
+	}
+	orig := make(obiseq.BioSequenceSlice, len(refs)) // CLIAssignTaxonomy compacts its argument in place
+	copy(orig, refs)
+	out := CLIAssignTaxonomy(obiiter.IBatchOver("q", qs, batch), refs, t.taxo)
+	o.taxids = make([]int, len(c.Queries))
+	for i := range o.taxids {
+		o.taxids[i] = -1
+	}
+	for out.Next() {
+		for _, s := range out.Get().Slice() {
+			i, err := strconv.Atoi(strings.TrimPrefix(s.Id(), "q"))
+			if err != nil || i < 0 || i >= len(o.taxids) {
+				o.err = "unexpected record " + s.Id()
+				return
+			}
+			o.taxids[i] = s.Taxid()
+		}
+	}
+	// the references as the caller still holds them (obitag --save-db writes them)
+	o.indices = make([]map[int]string, len(c.Refs))
+	for i, r := range orig {
+		if _, ok := t.node[c.Taxids[i]]; ok {
+			o.indices[i] = r.OBITagRefIndex()
+		}
 	}
 	return
 }
@@ -156,10 +361,194 @@ func TestVerifC15B(t *testing.T) {
 		}
 	}
 
+
+	// ---- call histories -------------------------------------------------------------------
+	type histCfg struct {
+		index   string
+		workers int
+		batch   int
+	}
+	histCfgs := []histCfg{{"", 1, 10}, {"", 2, 1}, {"", 3, 1}, {"int", 2, 1}, {"json", 2, 1}, {"str", 2, 1}, {"partial", 2, 1}}
+	known := func(tr *c15tree, c c15bCase) (n int) {
+		for _, x := range c.Taxids {
+			if _, ok := tr.par[x]; ok {
+				n++
+			}
+		}
+		return
+	}
+	discarded := func(tr *c15tree, c c15bCase) string {
+		if known(tr, c) != len(c.Taxids) {
+			return ":database-with-discarded-reference"
+		}
+		return ""
+	}
+	// storedIndexes checks every index found on a reference after a run
+	storedIndexes := func(tr *c15tree, c c15bCase, o c15bHistOut) {
+		for i, idx := range o.indices {
+			if idx == nil {
+				continue
+			}
+			r.Count("stored_indexes_checked", 1)
+			origin := "lazily-built"
+			switch {
+			case c.Index == "partial" && i%2 == 0, c.Index != "" && c.Index != "partial":
+				origin = "pre-indexed(" + c.Index + ")"
+			}
+			if origin == "lazily-built" {
+				r.Count("stored_indexes_lazily_built", 1)
+			}
+			want := c15bWantIndex(tr, c.Refs, c.Taxids, i)
+			if cls, msg := c15bCheckIndex(idx, want, len(c.Refs[i])); cls != "" {
+				r.Violate("CLIAssignTaxonomy/stored-index/"+cls+":"+origin+discarded(tr, c),
+					fmt.Sprintf("%+v: after the run reference %d carries obitag_ref_index=%s: %s", c, i, c15bIndexString(idx), msg), c)
+				return
+			}
+		}
+	}
+	// evalHist: base holds Tree, Refs, Taxids; queries are the members streams are drawn from
+	evalHist := func(tr *c15tree, base c15bCase, queries []string, maxLen int) {
+		if known(tr, base) == 0 {
+			return
+		}
+		nq := len(queries)
+		alone := make([]int, nq)
+		for qi, q := range queries {
+			c := base
+			c.Queries, c.Workers, c.Batch = []string{q}, 1, 10
+			o := c15bRunHist(tr, c)
+			r.Eval(1)
+			r.Trans(int64(len(c.Refs)))
+			if o.err != "" {
+				r.Violate("CLIAssignTaxonomy/crash", fmt.Sprintf("%+v: %s", c, o.err), c)
+				return
+			}
+			taxid := o.taxids[0]
+			alone[qi] = taxid
+			best := math.MaxInt
+			var bestTax []int
+			for i, s := range c.Refs {
+				if _, ok := tr.par[c.Taxids[i]]; !ok {
+					continue
+				}
+				d := c15bDist(q, s)
+				if d < best {
+					best, bestTax = d, bestTax[:0]
+				}
+				if d == best {
+					bestTax = append(bestTax, c.Taxids[i])
+				}
+			}
+			if _, ok := tr.par[taxid]; !ok {
+				r.Violate("CLIAssignTaxonomy/assigned-taxid-not-in-taxonomy", fmt.Sprintf("%+v: taxid %d", c, taxid), c)
+				return
+			}
+			if taxid != 1 {
+				r.Count("history_query_assigned_below_root", 1)
+			}
+			for _, x := range bestTax {
+				if !tr.isAncOrSelf(taxid, x) {
+					r.Violate("CLIAssignTaxonomy/not-ancestor-of-best"+discarded(tr, c), fmt.Sprintf("%+v: assigned taxid %d is not an ancestor-or-self of taxid %d of a reference at the minimal distance %d (best taxa %v)", c, taxid, x, best, bestTax), c)
+					return
+				}
+			}
+			if best == 0 && len(bestTax) == 1 && taxid != bestTax[0] {
+				r.Violate("CLIAssignTaxonomy/exact-unique-match-not-assigned"+discarded(tr, c), fmt.Sprintf("%+v: the query is identical to exactly one known reference (taxid %d) but is assigned taxid %d", c, bestTax[0], taxid), c)
+				return
+			}
+			storedIndexes(tr, c, o)
+		}
+		// every stream of 1..maxLen queries (repetitions included) under every configuration
+		modeAloneDiffers := map[string]bool{}
+		var rec func(h []int)
+		runStream := func(h []int) {
+			for ci, cfg := range histCfgs {
+				if len(h) == 1 && ci < 3 && ci > 0 {
+					continue // one query: the worker count and batch size change nothing
+				}
+				if len(h) == 1 && ci == 0 {
+					continue // = the run above
+				}
+				c := base
+				c.Index, c.Workers, c.Batch = cfg.index, cfg.workers, cfg.batch
+				c.Queries = nil
+				for _, qi := range h {
+					c.Queries = append(c.Queries, queries[qi])
+				}
+				o := c15bRunHist(tr, c)
+				r.Eval(1)
+				r.Trans(int64(len(c.Refs) * len(h)))
+				if len(h) > 1 {
+					r.Count("history_streams", 1)
+				}
+				what := "references=fresh"
+				if cfg.index != "" {
+					what = "references=pre-indexed(" + cfg.index + ")"
+				}
+				if o.err != "" {
+					cls := ":stream-of-queries"
+					if len(h) == 1 {
+						cls = ""
+					}
+					r.Violate("CLIAssignTaxonomy/crash:"+what+cls+discarded(tr, c), fmt.Sprintf("%+v: %s (every query alone on fresh references is assigned)", c, o.err), c)
+					continue
+				}
+				for k, qi := range h {
+					got := o.taxids[k]
+					if got == alone[qi] {
+						continue
+					}
+					if got == -1 {
+						r.Violate("CLIAssignTaxonomy/query-not-delivered:"+what, fmt.Sprintf("%+v: query %d of the stream is not in the output", c, k), c)
+						break
+					}
+					if len(h) == 1 {
+						modeAloneDiffers[cfg.index+"|"+queries[qi]] = true
+						r.Violate("CLIAssignTaxonomy/pre-indexed-references-change-the-assignment:"+cfg.index+discarded(tr, c),
+							fmt.Sprintf("%+v: assigned taxid %d, with fresh references (index built on the fly) taxid %d", c, got, alone[qi]), c)
+						break
+					}
+					if modeAloneDiffers[cfg.index+"|"+queries[qi]] {
+						break // already reported for this query alone
+					}
+					r.Violate("CLIAssignTaxonomy/assignment-depends-on-the-other-queries-of-the-run:"+what+discarded(tr, c),
+						fmt.Sprintf("%+v: query %d of the stream (%s) is assigned taxid %d; alone on fresh references it is assigned taxid %d", c, k, queries[qi], got, alone[qi]), c)
+					break
+				}
+				storedIndexes(tr, c, o)
+			}
+		}
+		rec = func(h []int) {
+			if len(h) > 0 {
+				runStream(h)
+			}
+			if len(h) == maxLen {
+				return
+			}
+			for qi := 0; qi < nq; qi++ {
+				rec(append(append([]int{}, h...), qi))
+			}
+		}
+		rec(nil)
+	}
+
 	if rc := r.ReplayCase(); rc != nil {
 		var c c15bCase
 		if err := json.Unmarshal(rc, &c); err != nil {
 			t.Fatal(err)
+		}
+		if len(c.Queries) > 0 {
+			// a stream: re-run it with its queries as the pool (each query alone first, then the stream)
+			var qs []string
+			seen := map[string]bool{}
+			for _, q := range c.Queries {
+				if !seen[q] {
+					seen[q] = true
+					qs = append(qs, q)
+				}
+			}
+			evalHist(byName[c.Tree], c15bCase{Tree: c.Tree, Refs: c.Refs, Taxids: c.Taxids}, qs, len(c.Queries))
+			return
 		}
 		eval(byName[c.Tree], c)
 		return
@@ -236,6 +625,75 @@ func TestVerifC15B(t *testing.T) {
 			}
 		}
 	}
+
+	// ---- call histories: databases = ordered selections of 2..3 distinct members of a pool holding,
+	// besides the query's neighbourhood, a second copy of the query (identical sequences, different
+	// taxa), a reference shorter than a 4-mer and one longer than everything else
+	maxHist := 2
+	if verifkit.Thorough() {
+		maxHist = 3
+	}
+	for _, tr := range trees {
+		leaves := tr.nodes
+		for qn, q := range queries {
+			if qn > 0 && !verifkit.Thorough() {
+				break
+			}
+			eds := c15edits(q)
+			pool := []string{q}
+			for i := 0; i < len(eds) && len(pool) < 4; i += len(eds)/3 + 1 {
+				pool = append(pool, eds[i])
+			}
+			d2 := c15edits(eds[len(eds)/2])
+			pool = append(pool, d2[len(d2)/3], c15rot(q, len(q)/2)+"tt", q, "acg", q+"ttgacc")
+			hq := []string{q, eds[len(eds)/2+1], "acg", q + "ttgacc"}
+			n := len(pool)
+			var rec func(cur []int)
+			rec = func(cur []int) {
+				if len(cur) >= 2 {
+					for _, v := range [][2]int{{0, -1}, {3, -1}, {0, 0}, {3, len(cur) - 1}} {
+						if !r.Mine(k) {
+							k++
+							continue
+						}
+						k++
+						c := c15bCase{Tree: tr.name}
+						for j, pi := range cur {
+							c.Refs = append(c.Refs, pool[pi])
+							tx := leaves[(v[0]+j*3)%len(leaves)]
+							if j == v[1] {
+								tx = 999
+							}
+							c.Taxids = append(c.Taxids, tx)
+						}
+						r.State(fmt.Sprintf("hist|%s|%s|%v|%v", tr.name, q, cur, c.Taxids))
+						evalHist(tr, c, hq, maxHist)
+					}
+				}
+				if len(cur) == 3 {
+					return
+				}
+				for i := 0; i < n; i++ {
+					used := false
+					for _, x := range cur {
+						if x == i {
+							used = true
+						}
+					}
+					if !used {
+						rec(append(append([]int{}, cur...), i))
+					}
+				}
+			}
+			rec(nil)
+			if r.Expired() {
+				return
+			}
+		}
+	}
+	r.RequireNonVacuous("history_streams")
+	r.RequireNonVacuous("stored_indexes_lazily_built")
+	r.RequireNonVacuous("history_query_assigned_below_root")
 	r.RequireNonVacuous("unknown_reference_before_a_known_one")
 	r.RequireNonVacuous("unique_exact_match")
 }
